@@ -51,6 +51,15 @@ fn plaintexts(hist: &[Op]) -> Vec<bytes::Bytes> {
     out
 }
 
+/// The document without its `at` field (the tag is an output of the seal).
+fn strip_seal_tag(doc: &[u8]) -> cbor2::Value {
+    let mut v = vstore::tamper::decode(doc);
+    if let cbor2::Value::Map(m) = &mut v {
+        m.retain(|(k, _)| !matches!(k, cbor2::Value::Text(t) if t == "at"));
+    }
+    v
+}
+
 fn bytes_of(v: Option<cbor2::Value>) -> Option<Vec<u8>> {
     match v {
         Some(cbor2::Value::Bytes(b)) => Some(b),
@@ -133,10 +142,20 @@ fn run_history(wrap: Wrap, hist: &[Op], clock: u64, want_sample: bool) -> HistOu
                 out.violations.push(viol("metadata-without-nonce", format!("{path} carries no base nonce")));
                 continue;
             };
-            if let Some(an) = bytes_of(get_field(&data, "an")) {
+            // the seal (GMAC over path + fields) runs under the same key: its
+            // nonce joins the same set, identified by what it authenticates
+            if let Some(an) = bytes_of(get_field(&data, "an"))
+                && an.len() == 12
+            {
                 let mut x = [0u8; 16];
                 x[..12].copy_from_slice(&an[..12]);
                 out.seal_nonces.push(u128::from_le_bytes(x));
+                // everything but the seal tag itself identifies the sealed message
+                let mut sealed = b"seal:".to_vec();
+                sealed.extend_from_slice(path.as_bytes());
+                sealed.push(0);
+                sealed.extend_from_slice(&vstore::tamper::encode(&strip_seal_tag(&data)));
+                out.nonces.push((u128::from_le_bytes(x), util::fnv64(&sealed)));
             }
             let gen_path = format!("gen/{key}/{g}");
             let Some(ct) = content.get(&gen_path) else {
@@ -341,7 +360,7 @@ fn main() {
         run.violation(Violation {
             signature: "C09/leak/nonce-used-for-two-different-chunks".into(),
             summary: format!(
-                "{reused} of {distinct_nonces} chunk nonces (re-derived from all metadata documents written in the run) were used for two or more different ciphertext chunks under the one key"
+                "{reused} of {distinct_nonces} nonces (chunk nonces re-derived from, and seal nonces read from, all metadata documents written in the run) were used for two or more different messages (ciphertext chunks / sealed documents) under the one key"
             ),
             replay: json!({"note": "run-wide nonce set; rerun the tier"}),
         });
@@ -357,11 +376,11 @@ fn main() {
     seal_nonces.dedup();
     run.set("distinct_chunk_nonces", json!(distinct_nonces));
     run.set("chunk_nonces_used_for_two_different_chunks", json!(reused));
-    run.set("metadata_seal_nonces", json!({"collected": n_seal, "distinct": seal_nonces.len(), "note": "measured, not judged"}));
+    run.set("metadata_seal_nonces", json!({"collected": n_seal, "distinct": seal_nonces.len(), "note": "in the same set as the chunk nonces"}));
     run.rule(
         "histories = CORE* . FULL+ over keys {a, a/b, c} (C07's alphabet plus 8/24/40-byte puts and a 25-byte three-part upload), EncryptedStore over a journalling backend; \
          every object version the backend ever received is scanned for every 8-byte window of every plaintext of the history; every metadata document written is decoded and the nonce of each chunk re-derived as n[0..4] || LE64(LE64(n[4..12]) + index), and the chunk is opened with the harness' own AES-256-GCM instance under that nonce and the documented chunk AAD (so the derived nonce is the one really used) and must yield bytes the history wrote at that offset; \
-         one nonce set for the whole run, a repeat is a violation unless ciphertext chunk and tag are identical (copies); distinct = distinct chunk nonces (capped at 200000 in the evidence counter)",
+         the seal nonce `an` of every metadata document version joins the same set (identified by path + document without its tag); one nonce set for the whole run (one encryption key), a repeat is a violation unless it is the very same message (the same ciphertext chunk and tag, as in copies); distinct = distinct chunk nonces (capped at 200000 in the evidence counter)",
     );
     run.assume("the OS random generator behind rand::rng() does not repeat 96-bit values (real collision probability is not checked)");
     run.assume("plaintexts are high-entropy (an accidental 8-byte match with ciphertext has probability 2^-64 per position)");
